@@ -4,7 +4,7 @@
 (* privileged contract state), and checks conformance with Auth's actions.                                   *)
 EXTENDS Integers, Sequences, FiniteSets, TLC, Json, IOUtils
 Trace == ndJsonDeserialize(IOEnv.TRACE_FILE)
-VARIABLES l, reg, upd, rcpt, ackrel, sent, acked, paid, priv, last,
+VARIABLES l, reg, ver, upd, rcpt, ackrel, sent, acked, paid, priv, last,
           feebal,   \* fee-token balance per account
           privfp,   \* fingerprint of the privileged contract state
           dg        \* digest of the evm, xibc and aggregate stores
@@ -14,13 +14,15 @@ Methods == {}
 Paths == {}
 MaxSeq == 1000
 MaxUpd == 1000
-Counter(r, c) == "cp-" \o r \o "-" \o c
+Vers == {1, 2}
+VStr(v) == IF v = 1 THEN "1" ELSE "2"
+Counter(r, c, v) == "cp-" \o r \o "-" \o c \o "-v" \o VStr(v)
 INSTANCE Auth
 ln(k) == Trace[k]
 SeqSet(s) == {s[i] : i \in DOMAIN s}
 RegOf(k) == [a \in Accts |-> {x.c : x \in SeqSet(ln(k).st.reg[a])}]
-AddrOK(k) == \A a \in Accts : \A x \in SeqSet(ln(k).st.reg[a]) : x.a = Counter(a, x.c)
-TInit == /\ l = 0 /\ reg = [a \in Accts |-> {}] /\ upd = [c \in Chains |-> 0] /\ rcpt = {} /\ ackrel = <<>> /\ sent = 0 /\ acked = {}
+AddrOK(k) == \A a \in Accts : \A x \in SeqSet(ln(k).st.reg[a]) : x.a = Counter(a, x.c, ver'[a])
+TInit == /\ l = 0 /\ reg = [a \in Accts |-> {}] /\ ver = [a \in Accts |-> 1] /\ upd = [c \in Chains |-> 0] /\ rcpt = {} /\ ackrel = <<>> /\ sent = 0 /\ acked = {}
          /\ paid = <<>> /\ priv = 0 /\ last = [act |-> "None", res |-> "ok"] /\ feebal = [a \in Accts |-> 0] /\ privfp = "" /\ dg = ""
 Report(k, name, holds) == holds \/ PrintT(<<"VIOL", k, name>>)
 IsStep(k) == ln(k).ev # "Init"
@@ -40,11 +42,11 @@ Judge(k) ==
   (* the relayer field of the written acknowledgement is the submitter's registered counterparty address *)
   /\ Report(k, "C06.AckRelayerField", (ev = "Recv" /\ OK(k)) =>
         /\ <<A(k).chain, ln(k).seq>> \in DOMAIN ackrel'
-        /\ ackrel'[<<A(k).chain, ln(k).seq>>] = Counter(A(k).signer, A(k).chain))
+        /\ ackrel'[<<A(k).chain, ln(k).seq>>] = Counter(A(k).signer, A(k).chain, ver[A(k).signer]))
   (* the fee of an acknowledged packet goes to the teleport account whose registered counterparty address the ack names *)
   /\ Report(k, "C06.FeeToRegistered", (ev = "Ack" /\ OK(k)) =>
         /\ Cardinality(Gainers) = 1
-        /\ \A a \in Gainers : "tss" \in reg[a] /\ A(k).rel = Counter(a, "tss"))
+        /\ \A a \in Gainers : "tss" \in reg[a] /\ A(k).rel = Counter(a, "tss", ver[a]))
   /\ Report(k, "C06.NoFeeOtherwise", (ev # "Ack" \/ ~OK(k)) => Gainers = {})
   (* a rejected attempt changes no state *)
   /\ Report(k, "C06.RejectNoChange", (ev \in {"Update", "Recv", "Ack"} /\ ~OK(k)) => dg' = dg)
@@ -55,23 +57,26 @@ Judge(k) ==
   /\ Report(k, "C06.PrivDirectCallFails", (ev = "Priv" /\ A(k).path \in {"eoa", "contract"}) => ~OK(k))
   (* clients change only by accepted updates; the registry only by proposals *)
   /\ Report(k, "C06.ClientsOnlyByUpdate", (ev # "Update" \/ ~OK(k)) => upd' = upd)
-  /\ Report(k, "C06.RegistryOnlyByProposal", (ev # "Register") => reg' = reg)
+  /\ Report(k, "C06.RegistryOnlyByProposal", (ev # "Register") => (reg' = reg /\ ver' = ver))
+  (* a (re-)registration installs exactly the proposal's chains and addresses *)
+  /\ Report(k, "C06.RegistrationInstalled", (ev = "Register" /\ OK(k)) => (reg'[A(k).r] = SeqSet(A(k).chains) /\ ver'[A(k).r] = A(k).v /\ AddrOK(k)))
 C_Step(k) ==
   LET ev == ln(k).ev IN
-  CASE ev = "Register" -> RegisterEff(A(k).r, SeqSet(A(k).chains)) /\ OK(k) /\ AddrOK(k)
+  CASE ev = "Register" -> RegisterEff(A(k).r, SeqSet(A(k).chains), A(k).v) /\ OK(k) /\ AddrOK(k)
     [] ev = "Update" -> UpdateEff(A(k).signer, A(k).chain) /\ OK(k) = UpdateOK(A(k).signer, A(k).chain)
     [] ev = "Recv" -> RecvEff(A(k).signer, A(k).chain, ln(k).seq) /\ OK(k) = RecvOK(A(k).signer, A(k).chain, ln(k).seq)
-    [] ev = "Send" -> OK(k) /\ sent' = sent + 1 /\ UNCHANGED <<reg, upd, rcpt, ackrel, acked>>
+    [] ev = "Send" -> OK(k) /\ sent' = sent + 1 /\ UNCHANGED <<reg, ver, upd, rcpt, ackrel, acked>>
     [] ev = "Ack" -> /\ OK(k) = AckOK(A(k).signer, A(k).seq, A(k).rel)
                      /\ acked' = (IF AckOK(A(k).signer, A(k).seq, A(k).rel) THEN acked \cup {A(k).seq} ELSE acked)
-                     /\ UNCHANGED <<reg, upd, rcpt, ackrel, sent>>
-    [] ev = "Priv" -> UNCHANGED <<reg, upd, rcpt, ackrel, sent, acked>>
+                     /\ UNCHANGED <<reg, ver, upd, rcpt, ackrel, sent>>
+    [] ev = "Priv" -> UNCHANGED <<reg, ver, upd, rcpt, ackrel, sent, acked>>
     [] OTHER -> FALSE
 Conform(k) == IsStep(k) => (C_Step(k) \/ PrintT(<<"DRIFT", k, ln(k).ev>>))
 AckMap(k) == LET S == SeqSet(ln(k).st.acks) IN [x \in {<<e.c, e.s>> : e \in S} |-> (CHOOSE e \in S : e.c = x[1] /\ e.s = x[2]).rel]
 TNext == LET k == l + 1 IN
   /\ l < Len(Trace) /\ l' = k
   /\ reg' = RegOf(k)
+  /\ ver' = [a \in Accts |-> ln(k).st.ver[a]]      \* read back from the registered addresses themselves
   /\ upd' = [c \in Chains |-> ln(k).st.upd[c]]
   /\ rcpt' = {<<x.c, x.s>> : x \in SeqSet(ln(k).st.rcpt)}
   /\ ackrel' = AckMap(k)
@@ -82,5 +87,5 @@ TNext == LET k == l + 1 IN
   /\ privfp' = ln(k).st.privfp /\ dg' = ln(k).dg
   /\ last' = [act |-> ln(k).ev, res |-> ln(k).res]
   /\ Judge(k) /\ Conform(k)
-TSpec == TInit /\ [][TNext]_<<l, reg, upd, rcpt, ackrel, sent, acked, paid, priv, last, feebal, privfp, dg>>
+TSpec == TInit /\ [][TNext]_<<l, reg, ver, upd, rcpt, ackrel, sent, acked, paid, priv, last, feebal, privfp, dg>>
 =============================================================================
